@@ -23,6 +23,7 @@ import (
 	dist "github.com/acquirecloud/golibs/kvs/distlock"
 	"github.com/acquirecloud/golibs/kvs/inmem"
 	gsync "github.com/acquirecloud/golibs/sync"
+	"github.com/acquirecloud/golibs/timeout"
 
 	"verifharness/internal/locksim"
 	"verifharness/internal/report"
@@ -87,6 +88,11 @@ type tap struct {
 	failCas  map[int]bool // fail the k-th CasByVersion (1-based) without executing it
 	dead     atomic.Bool  // refuse everything (holder process died)
 	casDelay func() time.Duration
+	// holdAnswer: the answer of the k-th CasByVersion is kept in flight after the call was applied:
+	// applied is closed when the storage has executed it, the call returns when release is closed
+	holdAnswer int
+	applied    chan struct{}
+	release    chan struct{}
 }
 
 func (t *tap) now() time.Duration { return time.Since(t.base) }
@@ -146,6 +152,10 @@ func (t *tap) CasByVersion(ctx context.Context, r kvs.Record) (kvs.Record, error
 		time.Sleep(t.casDelay())
 	}
 	res, err := t.inner.CasByVersion(ctx, r)
+	if t.holdAnswer == k && t.applied != nil {
+		close(t.applied)
+		<-t.release
+	}
 	e := tapEv{Op: "Cas", Call: c, Ret: t.now(), Err: cls(err), Ver: r.Version, NewV: res.Version}
 	if err == nil && r.ExpiresAt != nil {
 		e.Exp = r.ExpiresAt.Sub(t.base)
@@ -572,6 +582,42 @@ func unlockScenario(sc scen) []finding {
 	return out
 }
 
+// inflightScenario runs S5: the answer of the k-th renewal is still in flight (the storage has applied it)
+// when the holder unlocks and the same Locker is locked again; then the late answer arrives. The new tenure
+// must be renewed and protected like any other: it is held for 3 leases under the usual monitors.
+func inflightScenario(sc scen) []finding {
+	e := newEnv()
+	L := sc.L
+	tH, pH := e.provider(L)
+	_, pS := e.provider(L)
+	defer pH.Shutdown()
+	defer pS.Shutdown()
+	tH.holdAnswer, tH.applied, tH.release = sc.K, make(chan struct{}), make(chan struct{})
+	h, spin := pH.NewLocker("x"), pS.NewLocker("x")
+	var out []finding
+	h.Lock()
+	select {
+	case <-tH.applied:
+	case <-time.After(time.Duration(sc.K+2)*L + 10*time.Second):
+		close(tH.release)
+		h.Unlock()
+		return []finding{{sig: "harness/S5-renewal-not-reached", what: fmt.Sprintf("renewal %d never happened", sc.K), timeBound: true, w: sc}}
+	}
+	// renewal k has been applied, its answer is in flight: end the tenure and start the next one on the same Locker
+	h.Unlock()
+	if sc.Re == "other" {
+		// variant: somebody else holds in between for a moment
+		if spin.TryLock(context.Background()) {
+			spin.Unlock()
+		}
+	}
+	h.Lock()
+	close(tH.release) // now the late answer of the previous tenure's renewal arrives
+	out = append(out, guardTenure(e, sc, tH, spin, 3*L, "S5-tenure-after-inflight-renewal")...)
+	h.Unlock()
+	return out
+}
+
 func runScenario(sc scen) []finding {
 	switch sc.Kind {
 	case "S1":
@@ -586,6 +632,8 @@ func runScenario(sc scen) []finding {
 		return deathScenario(sc)
 	case "S4":
 		return unlockScenario(sc)
+	case "S5":
+		return inflightScenario(sc)
 	}
 	return nil
 }
@@ -593,7 +641,7 @@ func runScenario(sc scen) []finding {
 func TestCheck(t *testing.T) {
 	run := report.New("C05", "fault_enumeration")
 	defer run.Finish(t)
-	run.Rule("real-clock scenarios with lease L set through a hook, one storage tap per provider: S1 hold for 6 L (20 L thorough) with a TryLock-spinning and a parked contender; S2 the k-th renewal CAS answered by an injected error without executing, for every k<=K; S3 the holder's storage access dies at a phase of the renewal cycle and a parked contender must take over after the last lease ran out; S4 Unlock after hold times around multiples of L/2 with renewals delayed 0-5 ms (Unlock racing a renewal), then nothing / re-acquisition by the same / another Locker. In S1-S3 the caller that takes over after waiting holds for 3 L under the same monitors (its first lease must be a full one). Monitors over the tap log and probes of the record: exclusion, lease gap (each renewal completes before the lease it renews runs out), record present while held, renewal chain survives a transient error, take-over never before and at most L+2 s after the last lease ran out, at most one failing stale renewal after Unlock. distinct = distinct (scenario kind, L, k / phase / re-acquisition) instances run")
+	run.Rule("real-clock scenarios with lease L set through a hook, one storage tap per provider: S1 hold for 6 L (20 L thorough) with a TryLock-spinning and a parked contender; S2 the k-th renewal CAS answered by an injected error without executing, for every k<=K; S3 the holder's storage access dies at a phase of the renewal cycle and a parked contender must take over after the last lease ran out; S5 the answer of the k-th renewal is still in flight (applied by the storage) when the holder unlocks and the same Locker locks again, then the late answer arrives: the new tenure is held 3 L under the monitors; the order invariant of the timer queue (hook) is sampled throughout; S4 Unlock after hold times around multiples of L/2 with renewals delayed 0-5 ms (Unlock racing a renewal), then nothing / re-acquisition by the same / another Locker. In S1-S3 the caller that takes over after waiting holds for 3 L under the same monitors (its first lease must be a full one). Monitors over the tap log and probes of the record: exclusion, lease gap (each renewal completes before the lease it renews runs out), record present while held, renewal chain survives a transient error, take-over never before and at most L+2 s after the last lease ran out, at most one failing stale renewal after Unlock. distinct = distinct (scenario kind, L, k / phase / re-acquisition) instances run")
 	run.Assume("two-sided time bounds are guarded by a stall canary: a bound broken while the canary saw a stall above L/8 is repeated (up to 3 times) and only a repeat without stall counts")
 	run.Assume("a transient renewal failure is an attempt that was not applied (request lost); unacknowledged but applied renewals are not generated")
 
@@ -619,6 +667,9 @@ func TestCheck(t *testing.T) {
 		for i := 0; i < run.Pick(12, 24); i++ {
 			list = append(list, scen{Kind: "S3", L: L, Phase: time.Duration(rng.Int63n(int64(L)))})
 		}
+		for k := 1; k <= run.Pick(3, 6); k++ {
+			list = append(list, scen{Kind: "S5", L: L, K: k}, scen{Kind: "S5", L: L, K: k, Re: "other"})
+		}
 		for i := 0; i < run.Pick(45, 120); i++ {
 			mult := 1 + rng.Intn(4)
 			hold := time.Duration(mult)*L/2 + time.Duration(rng.Intn(12000)-6000)*time.Microsecond
@@ -628,6 +679,26 @@ func TestCheck(t *testing.T) {
 	for i := range list {
 		list[i].Seed += run.Seed()
 	}
+	// the renewal timers live in the timer package's queue (anchored file timeout/timeout.go): its order
+	// invariant is sampled under the package lock for the whole run
+	stopHeap := make(chan struct{})
+	var heapChecks atomic.Int64
+	go func() {
+		for {
+			select {
+			case <-stopHeap:
+				return
+			default:
+			}
+			if err := timeout.VerifCheckHeap(); err != nil {
+				run.Violation("lease/timer-queue-invariant", "the queue of lease timers is out of order / inconsistent (a renewal can fire late): "+err.Error(), map[string]any{"hook": "timeout.VerifCheckHeap", "error": err.Error()})
+				return
+			}
+			heapChecks.Add(1)
+			time.Sleep(200 * time.Microsecond)
+		}
+	}()
+	defer func() { close(stopHeap); run.Add("timer_queue_invariant_checks", heapChecks.Load()) }()
 	var wg sync.WaitGroup
 	sem := make(chan struct{}, 48)
 	for _, sc := range list {
